@@ -417,6 +417,73 @@ func EncodeBody(m *Msg) []byte {
 	return w.b
 }
 
+// CountField locates one count or length field inside an encoded frame.
+type CountField struct {
+	Offset int // position in the frame
+	Width  int // 2 or 4 bytes
+	Elem   int // size of the smallest element the count governs (1: bytes)
+	Rest   int // bytes of the frame after the field
+}
+
+// CountFields lists the count/length fields of the frame Encode(m) would
+// produce: string lengths, name and QID counts, payload and dirent byte counts.
+func CountFields(m *Msg) []CountField {
+	spec, ok := Table[m.Type]
+	if !ok {
+		return nil
+	}
+	var out []CountField
+	off := 7
+	add := func(width, elem int) { out = append(out, CountField{Offset: off, Width: width, Elem: elem}) }
+	for _, fd := range spec.Fields {
+		v := m.F[fd.Name]
+		switch fd.Kind {
+		case U8:
+			off++
+		case U16:
+			off += 2
+		case U32, Perm32:
+			off += 4
+		case U64:
+			off += 8
+		case Str:
+			s, _ := v.(string)
+			add(2, 1)
+			off += 2 + len(s)
+		case QIDK:
+			off += 13
+		case AttrK:
+			for _, wd := range AttrWidths {
+				off += wd
+			}
+		case Names:
+			ns, _ := v.([]string)
+			add(2, 2)
+			off += 2
+			for _, s := range ns {
+				add(2, 1)
+				off += 2 + len(s)
+			}
+		case QIDs:
+			qs, _ := v.([]QID)
+			add(2, 13)
+			off += 2 + 13*len(qs)
+		case Data:
+			d, _ := v.([]byte)
+			add(4, 1)
+			off += 4 + len(d)
+		case Dirents:
+			ds, _ := v.([]Dirent)
+			add(4, 1)
+			off += 4 + len(EncodeDirents(ds))
+		}
+	}
+	for i := range out {
+		out[i].Rest = off - out[i].Offset - out[i].Width
+	}
+	return out
+}
+
 // Frame builds size[4] type[1] tag[2] body.
 func Frame(typ uint8, tag uint16, body []byte) []byte {
 	out := make([]byte, 0, 7+len(body))
